@@ -10,7 +10,7 @@ from harness import htaio
 from harness.props import common as C
 from harness.props.c02 import wf as wf_c02, _dev
 
-N_CASES = {"quick": 130, "thorough": 2000}
+N_CASES = {"quick": 220, "thorough": 2000}
 SHRINK = True
 ASSUMPTIONS = [
     "well-formed trace (nested host events, correlation pairs unique, positive device streams, event 0 a host operator); every rank carries the same ProfilerStep names (the code counts steps in the global symbol table)",
